@@ -23,7 +23,86 @@ def gen_cases(tier, seed):
     nr = 64 if tier == "quick" else 400
     per = 150 if tier == "quick" else 260
     cases += [{"kind": "rand", "seed": [seed, i], "count": per} for i in range(nr)]
+    ns = 60 if tier == "quick" else 1500
+    cases += [{"kind": "insitu", "seed": [seed, i]} for i in range(ns)]
     return cases
+
+
+def run_insitu(case):
+    """Real solves with the filter penalty policies: every filter_insert / update made by the solver is
+    recorded through a class-level wrapper and replayed against the set model afterwards."""
+    import pygradflow.penalty as PN
+
+    from .. import mon, work
+
+    rng = rng_for("C18insitu", *case["seed"])
+    fam = str(rng.choice(["QP", "NLP", "NLP", "INF"]))
+    cfgd = {"penalty": str(rng.choice(["ObjectiveFilter", "LagrangianFilter"])),
+            "control": str(rng.choice(["DistanceRatio", "Exact", "Fixed", "ResiduumRatio"])),
+            "iteration_limit": int(rng.choice([40, 120])), "rho": float(10.0 ** rng.uniform(-8, 0))}
+    c = work.mk_case(fam, case["seed"], cfgd)
+    c["y0"] = "rand" if rng.random() < 0.5 else "none"
+    p = work.prepare(c, record_sites=False, keep_args=False)
+    log = []
+    orig_insert = PN.PenaltyFilter.filter_insert
+    orig_update = PN.PenaltyFilter.update
+
+    def rec_insert(self, first, second):
+        r = orig_insert(self, first, second)
+        log.append(("insert", id(self), float(first), float(second), bool(r),
+                    sorted((float(a), float(b)) for a, b in self.entries)))
+        return r
+
+    def rec_update(self, prev_iterate, next_iterate):
+        rho0 = self.rho
+        r = orig_update(self, prev_iterate, next_iterate)
+        log.append(("update", id(self), rho0, self.rho, r.next_rho, bool(r.accept)))
+        return r
+
+    PN.PenaltyFilter.filter_insert = rec_insert
+    PN.PenaltyFilter.update = rec_update
+    try:
+        out = mon.run_solve(p.rec, p.params, p.x0, p.y0)
+    finally:
+        PN.PenaltyFilter.filter_insert = orig_insert
+        PN.PenaltyFilter.update = orig_update
+    viol = []
+    ctr = {"insitu_runs": 1, "insitu_inserts": 0, "insitu_refusals": 0, "insitu_removals": 0}
+    models = {}
+    last_insert = {}
+    for ev in log:
+        if ev[0] == "insert":
+            _, fid, a, b, got, ents = ev
+            m = models.setdefault(fid, Model())
+            exp, removed = m.insert(a, b)
+            ctr["insitu_inserts"] += 1
+            ctr["insitu_refusals"] += (not exp)
+            ctr["insitu_removals"] += removed
+            last_insert[fid] = exp
+            if got != exp:
+                viol.append({"what": "in a real solve the filter %s the entry %r but the model says %s"
+                                     % ("accepted" if got else "refused", (a, b), "accept" if exp else "refuse"),
+                             "key": {"kind": "insert-decision", "where": "insitu"}})
+                break
+            if ents != sorted(m.s):
+                viol.append({"what": "in a real solve the stored entries %r differ from the model %r" % (ents, sorted(m.s)),
+                             "key": {"kind": "entries", "where": "insitu"}})
+                break
+        else:
+            _, fid, rho0, rho1, next_rho, acc = ev
+            exp = last_insert.get(fid)
+            if exp is None:
+                continue
+            want = rho0 if exp else rho0 * 10.0
+            if acc != exp or rho1 != want or next_rho != want:
+                viol.append({"what": "in a real solve an %s insertion led to accept=%s and penalty %r -> %r (expected %r)"
+                                     % ("accepted" if exp else "refused", acc, rho0, rho1, want),
+                             "key": {"kind": "rho", "where": "insitu"}})
+                break
+    res = {"viol": viol[:3], "evals": 1, "ctr": ctr}
+    if ctr["insitu_refusals"] or ctr["insitu_removals"]:
+        res["nt_keys"] = ["insitu-%s" % "-".join(map(str, case["seed"]))]
+    return res
 
 
 class Model:
@@ -97,6 +176,8 @@ def run_case(case):
     ctr = {"inserts": 0, "refusals": 0, "removals": 0, "sequences": 0, "sequences_via_update": 0}
     nt = 0
     sample = None
+    if case["kind"] == "insitu":
+        return run_insitu(case)
     if case["kind"] == "enum":
         L, G = case["L"], case["G"]
         grid = [(float(i), float(j)) for i in range(G) for j in range(G)]
@@ -167,10 +248,13 @@ def finalize(agg, tier):
     return {
         "rule": "every sequence of length <= %d over a %dx%d grid of pairs (ties and duplicates included), "
                 "each replayed on a fresh filter through filter_insert or update, plus random float sequences "
-                "of length <= 40 (small value pools, huge magnitudes, +-inf, signed zeros); a sequence is "
+                "of length <= 40 (small value pools, huge magnitudes, +-inf, signed zeros), plus the insertion sequences "
+                "that real solves with the ObjectiveFilter / LagrangianFilter policies produce (recorded in situ and "
+                "replayed against the model); a sequence is "
                 "non-trivial when at least one insertion was refused or removed a stored entry; enumerated "
                 "sequences are distinct by construction, random ones are de-duplicated by content" % (L, G, G),
-        "floors": {"refusals": 100, "removals": 100, "sequences_via_update": 100},
+        "floors": {"refusals": 100, "removals": 100, "sequences_via_update": 100, "insitu_inserts": 300,
+                   "insitu_refusals": 50, "insitu_removals": 50},
         "exhaustive": True,
         "extra": {"enumeration": {"max_length": L, "grid": G,
                                   "sequences_expected": sum((G * G) ** k for k in range(1, L + 1))}},
